@@ -82,11 +82,25 @@ extern unsigned vf_nin, vf_navail;
     }                                                       \
   } while (0)
 #define VF_REACH() ((void)0)
+#ifdef VF_TSAN_REPLAY
+/* two-thread ThreadSanitizer confirmation: every thread reads the (read-only) input words with a cursor of its own */
+static __thread unsigned vf_tnin;
 static inline uint64_t vf_u64(void) {
+  uint64_t v = vf_navail ? vf_in[vf_tnin % vf_navail] : 0;
+  vf_tnin++;
+  return v;
+}
+#else
+static inline uint64_t vf_u64(void) {
+#ifdef VF_CYCLIC_INPUTS /* replays at a larger size than the solver run: the recorded operand pattern is repeated */
+  uint64_t v = vf_navail ? vf_in[vf_nin % vf_navail] : 0;
+#else
   uint64_t v = vf_nin < vf_navail ? vf_in[vf_nin] : 0;
+#endif
   vf_nin++;
   return v;
 }
+#endif
 static inline double vf_f64(void) {
   uint64_t v = vf_u64();
   double x;
